@@ -591,3 +591,31 @@ def request_keys_rule(ctx, rule, why):
                 ctx.check(rule, f'{site(f, v)} {k.value}', vv.slice.value in (want, want.replace('_', '-')), key(f, f'request-key|{k.value}'),
                           f"the request field '{k.value}' is read from the JSON key '{vv.slice.value}': {why}", ast.unparse(v)[:80])
     return n
+
+
+def roadm_path_lookup_rule(ctx, rule, why):
+    """every internal ROADM path (from, to) is registered with the impairment profile that was looked up for that same (from, to):
+    set_roadm_paths(from_degree=A, to_degree=B, impairment_id=I) where I = get_per_degree_impairment_id(A, B), express, add and
+    drop paths alike"""
+    repo = ctx.repo
+    f = repo.func('gnpy.core.network', 'set_roadm_internal_paths')
+    n = 0
+    for c in calls_to(f, {'set_roadm_paths'}):
+        a = named_args(c)
+        fr, to, imp = a.get('from_degree'), a.get('to_degree'), a.get('impairment_id')
+        ok = all(isinstance(x, ast.Name) for x in (fr, to, imp))
+        if ok:
+            # the closest definition of the impairment id above the call, in the same block
+            blk = getattr(stmt_of(f, c), '_parent', None)
+            body = [x for fld in ('body', 'orelse') for x in (getattr(blk, fld, []) or [])]
+            ds = [x for x in body if isinstance(x, ast.Assign) and ast.unparse(x.targets[0]) == imp.id and x.lineno < c.lineno]
+            ok = bool(ds) and isinstance(ds[-1].value, ast.Call) and getattr(ds[-1].value.func, 'attr', '') == 'get_per_degree_impairment_id'
+            if ok:
+                la = named_args(ds[-1].value)
+                lf, lt = la.get('from_degree'), la.get('to_degree')
+                ok = isinstance(lf, ast.Name) and isinstance(lt, ast.Name) and (lf.id, lt.id) == (fr.id, to.id)
+        n += 1
+        ctx.check(rule, f'{site(f, c)} {ast.unparse(c)[:60]}', ok, key(f, f'path-lookup|{ast.unparse(kwarg(c, "path_type"))[:20]}'),
+                  f'a ROADM path is registered for ({ast.unparse(fr) if fr is not None else "?"} -> {ast.unparse(to) if to is not None else "?"}) with the '
+                  f'impairment profile looked up for another pair: {why}')
+    return n
